@@ -22,6 +22,7 @@ EXPLANATION = (
     "by name or alias; both naming settings. All outputs (module stubs, re-export stubs, placeholder stubs) are parsed "
     "by the independent recogniser: every type/superclass name is built-in, declared in the file, a type parameter or "
     "imported there, and every import names a (package, declaration) pair declared by some output file."
+    ' Added dimensions: a reference to a bare name that is no class at all; re-export by a package that is no ancestor of the defining module (fewer segments, more characters); the class used only with type arguments of its own (X[int]); built-in classes without Safe-DS counterpart.'
 )
 ASSUMPTIONS = [
     "names come from pools chosen to contain prefix/suffix coincidences (symbolic strings through the generator are "
